@@ -812,6 +812,18 @@ def spec_l1d(I, st, a, k, n):
     return _L1D(term, arrid(I, st, a[1]), arrid(I, st, a[2]))
 
 
+_CLOSS = z3.Function("loss_value", ObjS, z3.IntSort(), z3.IntSort(), z3.RealSort())
+
+
+def spec_closs(I, st, a, k, n):
+    used("spec function closs(loss, sim, real): the value compute_loss returns, named as a function of the loss object and "
+         "the identity of its two array arguments (justified by: inputs not written, no state kept between evaluations, "
+         "single-coordinate losses and filters pure)")
+    selfv = a[0]
+    term = selfv.term if isinstance(selfv, Opaque) else _obj_term(st, selfv)
+    return _CLOSS(term, arrid(I, st, a[1]), arrid(I, st, a[2]))
+
+
 def _obj_term(st, o):
     cell = st.heap[o.oid]
     if "$term" not in cell:
@@ -861,7 +873,7 @@ BUILTIN_FUNCS = {
     "default_rng": b_default_rng,
     "ri": spec_ri,
     "arange_len": lambda I, st, a, k, n: arange_len(st, a[0], a[1], a[2]),
-    "l1d": spec_l1d,
+    "l1d": spec_l1d, "closs": spec_closs,
     "upow": lambda I, st, a, k, n: upow(a[0], a[1], st),
     "frac": lambda I, st, a, k, n: to_real(a[0]) - z3.ToReal(z3.ToInt(to_real(a[0]))),
     "prime": lambda I, st, a, k, n: _prime(st, a[0]),
